@@ -68,6 +68,7 @@ class Ctx(object):
         self.obligations = []
         self.watch = {}            # name -> z3 term, reported from models
         self.witness_fn = None     # z3 model -> JSON-able concrete input for the replay harness
+        self.small_hints = []      # extra constraints tried first when extracting a counterexample (small sizes)
         self.facts_used = []
 
     def fresh(self, base, sort):
@@ -84,7 +85,7 @@ class Ctx(object):
         self.pc.append(f)
 
     def feasible(self, extra):
-        v = smt.check(self.pc + [extra], timeout_ms=2000, want_model=False, try_cvc5=False, single=True)
+        v = smt.check(self.pc + [extra], timeout_ms=20000, want_model=False, try_cvc5=False, single=True, rlimit=4000000)
         return v.status != 'unsat'
 
     def branch(self, cond):
@@ -132,8 +133,13 @@ class Ctx(object):
             ob = Obligation(name, 'refuted', v.backend, v.time_s, fp,
                             model=smt.model_to_dict(v.model, self.watch), reason=v.reason, kind=kind)
             if self.witness_fn is not None and v.model is not None:
+                model = v.model
+                if self.small_hints:
+                    v2 = smt.check(q + list(self.small_hints), timeout_ms=5000, try_cvc5=False, single=True)
+                    if v2.status == 'sat' and v2.model is not None:
+                        model = v2.model       # a small counterexample is easier to replay
                 try:
-                    ob.witness = self.witness_fn(v.model)
+                    ob.witness = self.witness_fn(model)
                 except Exception as e:      # concretisation failure is not a verdict
                     ob.reason += ' | witness concretisation failed: %r' % (e,)
         else:
@@ -275,9 +281,7 @@ class Interp(object):
             return con(self, args, kwargs)
         node = clo.node
         a = node.args
-        if a.posonlyargs:
-            raise OutOfSubset('positional-only parameters')
-        params = [p.arg for p in a.args]
+        params = [p.arg for p in a.posonlyargs] + [p.arg for p in a.args]
         env = {}
         args = list(args)
         if len(args) > len(params) and a.vararg is None:
